@@ -179,9 +179,13 @@ func c02(c *wk.Ctx) {
 		}
 	}
 	// the format limit: 2^24-1 is the longest string, 2^24 must be refused
-	for _, n := range []int{1<<24 - 1, 1 << 24, 1<<24 + 1} {
+	for li, n := range []int{1<<24 - 1, 1 << 24, 1<<24 + 1, 1<<24 - 1, 1 << 24, 1<<24 + 1} {
 		if c.Mine(idx) {
+			// once through a `bytes` parameter ([]byte in Go), once through a `string` parameter (Go string)
 			d := allSchema.ByName["upload.saveFilePart"]
+			if li >= 3 {
+				d = allSchema.ByName["contacts.resolveUsername"]
+			}
 			if d != nil {
 				c.Begin(idx, fmt.Sprintf("limit %d", n))
 				o := &ts.GenOpts{R: c.Rand(idx), MaxDepth: 2, Costs: costs, ForceStrLen: n}
@@ -202,7 +206,7 @@ func c02(c *wk.Ctx) {
 					case n < 1<<24 && (merr != nil || werr != nil || !bytes.Equal(got, want)):
 						c.Viol("C02", idx, "limit/longest-string", fmt.Sprintf("2^24-1 bytes: err=%v", merr), n)
 					}
-					c.Distinct("limit", n)
+					c.Distinct("limit", n, d.Name)
 				}
 			}
 		}
@@ -340,8 +344,15 @@ func c02hand(c *wk.Ctx, idx int, d *ts.Def) {
 	}
 	switch d.Name {
 	case "gzip_packed":
-		for k := 0; k < 20; k++ {
+		for k := 0; k < 24; k++ {
 			v, b := inner()
+			if k >= 20 {
+				// what servers pack is large: a file part of 512 KiB / 1 MiB and a little more, inside its result object
+				if d := allSchema.ByName["upload.file"]; d != nil {
+					v = allSchema.Gen(d, &ts.GenOpts{R: r, MaxDepth: 2, Costs: costs, ForceStrLen: []int{512 << 10, 1<<20 - 28, 1 << 20, 3<<20 + 5}[k-20]}, 0)
+					b, _ = ts.Serialize(v)
+				}
+			}
 			var z bytes.Buffer
 			zw := gzip.NewWriter(&z)
 			zw.Write(b)
